@@ -96,12 +96,24 @@ def run_c07(res, tier, seed):
     from p_refs import record_workspace
     wss += [record_workspace(rng) for _ in range(8 if tier == "quick" else 80)]
     from p_refs import run_expected_groups
+    # the recorded findings' own inputs (workspace + the rename that shows it), replayed on every run
+    from p_ide import FilesOnly
+    forced = {}
+    for f in common.known_findings().get("findings", []):
+        ex = (f.get("example") or {}).get("input")
+        if f.get("property") == "C07" and isinstance(ex, dict) and "files" in ex and ex.get("query", "").startswith("rename\t"):
+            w = FilesOnly(ex["files"])
+            q = ex["query"].split("\t")
+            forced[id(w)] = (int(q[1]), int(q[2]))
+            wss.append(w)
     run_expected_groups(res, "C07", wss)
     all_toks = stage1(wss)
     plans, qs = [], []
     for ws, toks in zip(wss, all_toks):
         cands = [t for t in toks if t.prepare and t.prepare.startswith("ok ")]
         rng.shuffle(cands)
+        if id(ws) in forced:
+            cands = [t for t in cands if (t.file, t.start) == forced[id(ws)]]
         seen, chosen = set(), []
         for t in cands:
             key = t.goto[:3] if t.goto else None
